@@ -89,7 +89,7 @@ fn default_runs(p: P, thorough: bool) -> u64 {
         P::C14 => (36_000, 500_000),
         P::C15 => (40_000, 400_000),
         P::C16 => (12_000, 160_000),
-        P::C18 => (4_000, 60_000),
+        P::C18 => (3_000, 45_000),
     };
     if thorough {
         t
@@ -98,7 +98,10 @@ fn default_runs(p: P, thorough: bool) -> u64 {
     }
 }
 
+static TRACE: std::sync::OnceLock<String> = std::sync::OnceLock::new();
+
 struct RunOut {
+    aux: u64,
     sig: u64,
     nontrivial: bool,
     violation: Option<Violation>,
@@ -168,7 +171,7 @@ fn run_batch_procs(p: P, master: u64, runs: u64, procs: usize, thorough: bool) -
         for r in v["runs"].as_array().unwrap() {
             let i = r["i"].as_u64().unwrap() as usize;
             let violation: Option<Violation> = if r["violation"].is_null() { None } else { Some(serde_json::from_value(r["violation"].clone()).unwrap()) };
-            outs[i] = Some(RunOut { sig: r["sig"].as_u64().unwrap(), nontrivial: r["nontrivial"].as_bool().unwrap(), violation, sample: r["sample"].as_str().map(|s| s.to_string()) });
+            outs[i] = Some(RunOut { aux: 0, sig: r["sig"].as_u64().unwrap(), nontrivial: r["nontrivial"].as_bool().unwrap(), violation, sample: r["sample"].as_str().map(|s| s.to_string()) });
         }
         for (k, n) in v["counters"].as_object().unwrap() {
             cov.hit_n(k, n.as_u64().unwrap());
@@ -239,6 +242,10 @@ fn run_batch(p: P, master: u64, runs: u64, workers: usize, thorough: bool, stop_
                     break;
                 }
                 let case = gen_case(p, master, i, thorough);
+                if let Some(path) = TRACE.get() {
+                    // single-worker trace mode: remember which run is in flight, in case the process dies
+                    let _ = std::fs::write(path, format!("{}", i));
+                }
                 let mut cov = Cov::new();
                 let v = world_probes::execute(&case, &mut cov);
                 if v.is_some() && stop_on_violation {
@@ -252,7 +259,7 @@ fn run_batch(p: P, master: u64, runs: u64, workers: usize, thorough: bool, stop_
                     f.put_u64(v.at_event as u64);
                 }
                 wcov.merge(&cov);
-                local.push((i, RunOut { sig: f.0, nontrivial: nontrivial(&case) && cov.ops > 0, violation: v, sample }));
+                local.push((i, RunOut { aux: cov.aux, sig: f.0, nontrivial: nontrivial(&case) && cov.ops > 0, violation: v, sample }));
                 if local.len() >= 256 {
                     let mut r = results.lock().unwrap();
                     for (i, o) in local.drain(..) {
@@ -350,6 +357,9 @@ fn cmd_run(a: &Args) -> i32 {
     let replay_dir = a.opts.get("replay-dir").cloned().unwrap_or_else(|| format!("/verif/replays/{}", p.name()));
     let known_path = a.opts.get("known").cloned().unwrap_or_else(|| "/verif/known_findings.json".to_string());
     let known: Vec<Known> = std::fs::read_to_string(&known_path).ok().and_then(|s| serde_json::from_str::<KnownFile>(&s).ok()).map(|k| k.findings).unwrap_or_default();
+    if let Some(t) = a.opts.get("trace") {
+        let _ = TRACE.set(t.clone());
+    }
     println!("hpke-sim: property={} tier={} VERIF_SEED={} runs={} workers={}", p.name(), if thorough { "thorough" } else { "quick" }, master, runs, workers);
     model_selftest();
     let t0 = Instant::now();
@@ -379,12 +389,27 @@ fn cmd_run(a: &Args) -> i32 {
             }
         }
     }
+    let mut history_replay: Option<String> = None;
+    if p == P::C18 && fatal.is_none() {
+        if let Some((run, path)) = c18_history_check(master, runs, thorough, &batch, &replay_dir) {
+            println!("violation in run {}: c18.depends-on-process-history", run);
+            println!("  expected: the isolated transcript of a session is the same in every process, whatever ran before");
+            println!("  observed: a fresh-order reference process computed a different transcript");
+            println!("VIOLATION property=C18 replay={}", path);
+            history_replay = Some(path);
+        }
+    }
     for (what, n) in &known_hits {
         println!("KNOWN-FINDING: property={} {} ({} runs)", p.name(), what, n);
     }
     let mut exit = 0;
     let mut violations = 0;
     let mut replay_path = String::new();
+    if let Some(pth) = history_replay {
+        exit = 1;
+        violations = 1;
+        replay_path = pth;
+    }
     if let Some((run, v)) = fatal {
         violations = 1;
         exit = 1;
@@ -473,6 +498,11 @@ fn cmd_replay(a: &Args) -> i32 {
         Some(p) => p,
         None => return 2,
     };
+    if let Some(v) = std::fs::read_to_string(path).ok().and_then(|s| serde_json::from_str::<serde_json::Value>(&s).ok()) {
+        if v["engine"].as_str() == Some("sim-c18-history") {
+            return cmd_replay_history(path, &v);
+        }
+    }
     let rf: ReplayFile = match std::fs::read_to_string(path).ok().and_then(|s| serde_json::from_str(&s).ok()) {
         Some(r) => r,
         None => {
@@ -497,6 +527,152 @@ fn cmd_replay(a: &Args) -> i32 {
             println!("replay of {} did not reproduce a violation ({} events)", path, rf.case.events.len());
             0
         }
+    }
+}
+
+/// Writes the generated (un-minimised) case of one run as a replay file; used by the driver when
+/// the simulator process itself died (abort, stack overflow) while executing that run.
+fn cmd_gencase(a: &Args) -> i32 {
+    let p = match a.pos.get(0).and_then(|s| P::parse(s)) {
+        Some(p) => p,
+        None => return 2,
+    };
+    let thorough = a.opts.get("tier").map(|s| s == "thorough").unwrap_or(false);
+    let master: u64 = a.opts.get("seed").and_then(|s| s.parse().ok()).unwrap_or(1);
+    let run: u64 = a.opts.get("run").and_then(|s| s.parse().ok()).unwrap_or(0);
+    let out = a.opts.get("out").cloned().unwrap_or_else(|| "case.json".into());
+    let case = gen_case(p, master, run, thorough);
+    let n = case.events.len();
+    let rf = ReplayFile {
+        harness_version: HARNESS_VERSION.into(),
+        case,
+        violation: Violation { property: p.name().into(), invariant: "process-abort".into(), at_event: 0, expected: "every call returns a value or an HpkeError; the process never aborts".into(), observed: "the simulator process died while executing this run".into() },
+        minimised: false,
+        original_events: n,
+    };
+    std::fs::write(&out, serde_json::to_string_pretty(&rf).unwrap()).expect("write case");
+    0
+}
+
+/// C18: results must not depend on earlier library calls in the same process. The main batch
+/// computed every run's isolated transcripts in one long-lived multi-threaded process; reference
+/// processes recompute them in the reverse run order (different process history). Any difference
+/// is a dependence on hidden process-global state.
+fn c18_history_check(master: u64, runs: u64, thorough: bool, batch: &Batch, replay_dir: &str) -> Option<(u64, String)> {
+    let exe = std::env::current_exe().ok()?;
+    let n = 16u64;
+    let dir = std::env::temp_dir().join(format!("hpke-sim-c18ref-{}", std::process::id()));
+    let _ = std::fs::create_dir_all(&dir);
+    let mut kids = vec![];
+    for k in 0..n {
+        let out = dir.join(format!("ref{}.json", k));
+        let child = std::process::Command::new(&exe)
+            .args(["c18ref", "--seed", &master.to_string(), "--runs", &runs.to_string(), "--tier", if thorough { "thorough" } else { "quick" }, "--shard", &format!("{}/{}", k, n), "--order", "rev", "--out", out.to_str().unwrap()])
+            .spawn()
+            .ok()?;
+        kids.push((child, out));
+    }
+    let mut bad: Option<u64> = None;
+    for (mut child, out) in kids {
+        let st = child.wait().ok()?;
+        if !st.success() {
+            eprintln!("HARNESS ERROR: c18 reference process failed");
+            std::process::exit(2);
+        }
+        let v: serde_json::Value = serde_json::from_str(&std::fs::read_to_string(&out).ok()?).ok()?;
+        for (k, a) in v.as_object()? {
+            let i: u64 = k.parse().ok()?;
+            let want = a.as_u64()?;
+            if let Some(Some(o)) = batch.outs.get(i as usize) {
+                if o.aux != want && bad.map(|b| i < b).unwrap_or(true) {
+                    bad = Some(i);
+                }
+            }
+        }
+    }
+    let _ = std::fs::remove_dir_all(&dir);
+    let i = bad?;
+    // minimise the history: a single earlier run j such that [j, i] in one process differs from [i] alone
+    let fresh = c18ref_child(&exe, master, thorough, &[i])?;
+    let mut prefix: Vec<u64> = (0..i).collect();
+    for j in 0..i.min(400) {
+        if let Some(v) = c18ref_child(&exe, master, thorough, &[j, i]) {
+            if v != fresh {
+                prefix = vec![j];
+                break;
+            }
+        }
+    }
+    let _ = std::fs::create_dir_all(replay_dir);
+    let path = format!("{}/c18-history-run{}.json", replay_dir, i);
+    let rf = json!({"engine": "sim-c18-history", "property": "C18", "master_seed": master, "tier": if thorough { "thorough" } else { "quick" }, "run": i, "prefix_runs": prefix,
+        "explanation": "executing the sessions of the prefix runs and then the sessions of `run` in one fresh process gives a different isolated transcript for `run` than executing `run` alone in a fresh process"});
+    std::fs::write(&path, serde_json::to_string_pretty(&rf).unwrap()).ok()?;
+    Some((i, path))
+}
+
+/// aux of the last listed run after executing the listed runs, in order, in one fresh process
+fn c18ref_child(exe: &std::path::Path, master: u64, thorough: bool, only: &[u64]) -> Option<u64> {
+    let list: Vec<String> = only.iter().map(|x| x.to_string()).collect();
+    let out = std::process::Command::new(exe)
+        .args(["c18ref", "--seed", &master.to_string(), "--tier", if thorough { "thorough" } else { "quick" }, "--only", &list.join(","), "--out", "-"])
+        .output()
+        .ok()?;
+    let v: serde_json::Value = serde_json::from_slice(&out.stdout).ok()?;
+    v.get(&only.last()?.to_string())?.as_u64()
+}
+
+fn cmd_c18ref(a: &Args) -> i32 {
+    let master: u64 = a.opts.get("seed").and_then(|s| s.parse().ok()).unwrap_or(1);
+    let thorough = a.opts.get("tier").map(|s| s == "thorough").unwrap_or(false);
+    let mut order: Vec<u64> = vec![];
+    if let Some(only) = a.opts.get("only") {
+        order = only.split(',').filter_map(|x| x.parse().ok()).collect();
+    } else {
+        let runs: u64 = a.opts.get("runs").and_then(|s| s.parse().ok()).unwrap_or(0);
+        let (k, n) = {
+            let mut it = a.opts["shard"].split('/');
+            (it.next().unwrap().parse::<u64>().unwrap(), it.next().unwrap().parse::<u64>().unwrap())
+        };
+        let mut i = k;
+        while i < runs {
+            order.push(i);
+            i += n;
+        }
+        if a.opts.get("order").map(|s| s == "rev").unwrap_or(false) {
+            order.reverse();
+        }
+    }
+    let mut map = serde_json::Map::new();
+    for i in order {
+        let case = gen_case(P::C18, master, i, thorough);
+        map.insert(i.to_string(), json!(c18::isolated_aux(&case)));
+    }
+    let txt = serde_json::to_string(&serde_json::Value::Object(map)).unwrap();
+    match a.opts.get("out").map(|s| s.as_str()) {
+        Some("-") | None => println!("{}", txt),
+        Some(f) => std::fs::write(f, txt).expect("write c18ref output"),
+    }
+    0
+}
+
+fn cmd_replay_history(path: &str, v: &serde_json::Value) -> i32 {
+    let exe = std::env::current_exe().expect("exe");
+    let master = v["master_seed"].as_u64().unwrap_or(1);
+    let thorough = v["tier"].as_str() == Some("thorough");
+    let run = v["run"].as_u64().unwrap_or(0);
+    let mut list: Vec<u64> = v["prefix_runs"].as_array().map(|a| a.iter().filter_map(|x| x.as_u64()).collect()).unwrap_or_default();
+    list.push(run);
+    let with_history = c18ref_child(&exe, master, thorough, &list);
+    let fresh = c18ref_child(&exe, master, thorough, &[run]);
+    println!("isolated transcript of run {}: after history {:?} = {:?}; in a fresh process = {:?}", run, &list[..list.len() - 1], with_history, fresh);
+    if with_history != fresh {
+        println!("replayed: c18.depends-on-process-history");
+        println!("VIOLATION property=C18 replay={}", path);
+        1
+    } else {
+        println!("replay did not reproduce a violation");
+        0
     }
 }
 
@@ -526,6 +702,8 @@ fn main() {
         "replay" => cmd_replay(&a),
         "digest" => cmd_digest(&a),
         "shard" => cmd_shard(&a),
+        "gencase" => cmd_gencase(&a),
+        "c18ref" => cmd_c18ref(&a),
         "selftest" => {
             model_selftest();
             for (n, ok) in refhpke::optional_anchors() {
